@@ -18,6 +18,9 @@ pub struct Case {
     pub primary_reads: bool,
     pub replicas_down: bool,
     pub lb_loc: bool,
+    /// 0 = no plugins, 1 = query_logger, 2 = table_access on a table no statement touches, 3 = both
+    #[serde(default)]
+    pub plugins: u8,
     pub steps: Vec<Step>,
 }
 
@@ -35,14 +38,14 @@ impl Part for WirePart {
         true
     }
     fn rule(&self) -> String {
-        "one primary + two replicas (mock backends on 127.0.0.1/2/3), read/write splitting on, default_role × primary_reads_enabled × load balancing mode × replicas up/down; sessions of 1..8 steps (class-labelled messages as simple Query or Parse/Bind/Execute/Sync, SET SERVER ROLE, SET PRIMARY READS); oracle: the role of the backend whose log shows the tagged statement satisfies the label model; with 'replica' pinned and both replicas down the client gets an error and the primary receives nothing. Non-trivial = a non-read class other than plain DML, or a message after an override".into()
+        "one primary + two replicas (mock backends on 127.0.0.1/2/3), read/write splitting on, default_role × primary_reads_enabled × load balancing mode × replicas up/down × statement plugins off / query_logger / table_access (on a table nothing touches); sessions of 1..8 steps (class-labelled messages as simple Query or Parse/Bind/Execute/Sync, SET SERVER ROLE, SET PRIMARY READS); oracle: the role of the backend whose log shows the tagged statement satisfies the label model; with 'replica' pinned and both replicas down the client gets an error and the primary receives nothing. Non-trivial = a non-read class other than plain DML, or a message after an override".into()
     }
     fn cases(&self, tier: Tier) -> u64 {
         tier.pick(1_200, 16_000)
     }
     fn strategy(&self, _tier: Tier) -> BoxedStrategy<Case> {
-        (0u8..3, any::<bool>(), prop::bool::weighted(0.2), any::<bool>(), prop::collection::vec(step_strategy(), 1..9))
-            .prop_map(|(default_role, primary_reads, replicas_down, lb_loc, steps)| Case { default_role, primary_reads, replicas_down, lb_loc, steps })
+        (0u8..3, any::<bool>(), prop::bool::weighted(0.2), any::<bool>(), prop_oneof![2 => Just(0u8), 1 => 1u8..4], prop::collection::vec(step_strategy(), 1..9))
+            .prop_map(|(default_role, primary_reads, replicas_down, lb_loc, plugins, steps)| Case { default_role, primary_reads, replicas_down, lb_loc, plugins, steps })
             .boxed()
     }
     fn run(&self, c: &Case, ctx: &mut WorkerCtx) -> Outcome {
@@ -66,6 +69,17 @@ fn config(mocks: &[crate::mock::MockServer], c: &Case) -> PgcatConfig {
     pool.set("default_role", ["\"any\"", "\"replica\"", "\"primary\""][(c.default_role % 3) as usize]);
     if c.lb_loc {
         pool.set("load_balancing_mode", "\"loc\"");
+    }
+    if c.plugins > 0 {
+        // plugins that never object to the generated statements: routing must be what it is without them
+        let mut t = String::from("[pools.db.plugins]\n");
+        if c.plugins & 1 != 0 {
+            t.push_str("\n[pools.db.plugins.query_logger]\nenabled = true\n");
+        }
+        if c.plugins & 2 != 0 {
+            t.push_str("\n[pools.db.plugins.table_access]\nenabled = true\ntables = [\"c05_never_used\"]\n");
+        }
+        pool.raw_tail = t;
     }
     cfg.pools.push(pool);
     cfg
@@ -95,6 +109,9 @@ async fn run_case(c: &Case, ctx: &mut WorkerCtx) -> Outcome {
         env.mocks[1].kill_sessions();
         env.mocks[2].kill_sessions();
         o.label("replicas_down");
+    }
+    if c.plugins > 0 {
+        o.label("plugins_enabled");
     }
     let mut model = Model::new(c.primary_reads);
     let mut overridden = false;
